@@ -587,3 +587,37 @@ def _mk_helper(hname):
 
 for _hn in _HELPERS:
     _mk_helper(_hn)
+
+
+@obligation('C16.marker.emit', targets=['spyne.model._base:ModelBase.get_type_name_ns', 'spyne.model._base:ModelBase.get_namespace_prefix'],
+            desc="for EVERY prefix text the interface hands out for the class' namespace (symbolic) and every class of the tree: "
+                 "the xsi:type text written is exactly prefix + ':' + type_name(K), and the prefix is the one the interface "
+                 "gives for namespace(K) -- no other namespace is asked for; with C16.marker.resolve (split at the first ':', "
+                 "prefixes contain none) the receiver resolves it to K",
+            assumptions=["'%s:%s' % (prefix, name) on text is modelled as concatenation",
+                         "the interface is a stand-in answering get_namespace_prefix(ns) with a symbolic text per namespace"])
+def marker_emit(c):
+    import z3
+    A, B, C, B2, U = make_tree()
+    K = c.choose([A, B, C, B2, B.customize(min_occurs=1)], 'class')
+    p = c.str('prefix_of_class_namespace')
+    other = c.str('prefix_of_any_other_namespace')
+    asked = []
+
+    class _Iface(object):
+        def get_namespace_prefix(self, ns):
+            asked.append(ns)
+            return p if ns == K.get_namespace() else other
+    _Iface.get_namespace_prefix._pyvc_native = True
+    out = c.run(K.get_type_name_ns, _Iface())
+    c.check('returns', out.returned, detail=repr(out))
+    if not out.returned:
+        return
+    from pyvc.text import text_eq, FmtStr
+    want_tail = ':' + K.get_type_name()
+    if c.concrete:
+        c.check('text_is_prefix_colon_type_name', out.value == p + want_tail, detail=repr(out.value))
+    else:
+        c.check('text_is_prefix_colon_type_name', text_eq(out.value, p + want_tail) if isinstance(out.value, (str, FmtStr)) else False,
+                detail=repr(out.value))
+    c.check('only_the_class_namespace_asked', asked and all(a == K.get_namespace() for a in asked), detail=asked)
